@@ -61,11 +61,12 @@ theorem Chain.A_lt {b : Base} {s : St} : ∀ (acts : List Act) (D : List Cell) (
 def Holds (b : Base) (a0 : Act) (rest0 : List Act) (s : St) : Prop :=
   WF s ∧ ∃ upper top rest, Running b s top rest ∧ top :: rest = upper ++ a0 :: rest0
 
-theorem holds_step {b : Base} {a0 : Act} {rest0 : List Act} {s s' : St} (h : Holds b a0 rest0 s) (hv : VmStep s s')
-    (ha : a0.A ≤ s'.addr.length) : Holds b a0 rest0 s' := by
+theorem holds_step_ext {b : Base} {a0 : Act} {rest0 : List Act} {s s' : St} (h : Holds b a0 rest0 s) (hv : VmStep s s')
+    (ha : a0.A ≤ s'.addr.length) : Holds b a0 rest0 s' ∧ TExt s s' := by
   obtain ⟨hw, upper, top, rest, hr, hst⟩ := h
   obtain ⟨fuel, i, _, hf, hex⟩ := hv
-  obtain ⟨hw', _, hn, _⟩ := (allSpec' (fuel + 1)).exec b s s' top rest i hw hr hf hex
+  obtain ⟨hw', he, hn, _⟩ := (allSpec' (fuel + 1)).exec b s s' top rest i hw hr hf hex
+  refine ⟨?_, he⟩
   have hlt := Chain.A_lt _ _ _ _ hr.chain
   have hmem : a0 = top ∨ a0 ∈ rest := by
     have : a0 ∈ top :: rest := by rw [hst]; simp
@@ -96,6 +97,9 @@ theorem holds_step {b : Base} {a0 : Act} {rest0 : List Act} {s s' : St} (h : Hol
       omega
     · have h2 := hl1 a0 hm
       omega
+
+theorem holds_step {b : Base} {a0 : Act} {rest0 : List Act} {s s' : St} (h : Holds b a0 rest0 s) (hv : VmStep s s')
+    (ha : a0.A ≤ s'.addr.length) : Holds b a0 rest0 s' := (holds_step_ext h hv ha).1
 
 theorem holds_reach {b : Base} {a0 : Act} {rest0 : List Act} {s s' : St} (hr : ReachAbove a0.A s s') (h : Holds b a0 rest0 s) :
     Holds b a0 rest0 s' := by
